@@ -184,6 +184,25 @@ fn dec_ix(kind: i128, r: i128, c: i128, rows: &mut std::slice::Iter<'_, Vec<i128
     }
 }
 
+/// a row iterator whose size_hint is whatever the case says (size hints are advisory: safe code must not trust them)
+struct Hinted<T> {
+    inner: std::vec::IntoIter<T>,
+    hint: i128,
+}
+impl<T> Iterator for Hinted<T> {
+    type Item = T;
+    fn next(&mut self) -> Option<T> {
+        self.inner.next()
+    }
+    fn size_hint(&self) -> (usize, Option<usize>) {
+        if self.hint < 0 {
+            (0, None)
+        } else {
+            (self.hint as usize, Some(self.hint as usize))
+        }
+    }
+}
+
 fn atoms<T: Elem>(l: &[i128]) -> Vec<T> {
     l.iter().map(|v| T::atom(*v as i64)).collect()
 }
@@ -247,6 +266,14 @@ where
                 None => "None".to_string(),
             }),
             2 => out.push(format!("{}", it.len())),
+            10..=89 => out.push(match it.nth((*w - 10) as usize) {
+                Some(x) => format!("Some({})", show(x)),
+                None => "None".to_string(),
+            }),
+            100..=179 => out.push(match it.nth_back((*w - 100) as usize) {
+                Some(x) => format!("Some({})", show(x)),
+                None => "None".to_string(),
+            }),
             _ => {
                 out.push("INVALID".to_string());
                 break;
@@ -277,8 +304,13 @@ where
         i += 2;
         if who < 0 {
             match what {
-                0 | 1 => {
-                    let item = if what == 0 { outer.next() } else { outer.next_back() };
+                0 | 1 | 10..=89 | 100..=179 => {
+                    let item = match what {
+                        0 => outer.next(),
+                        1 => outer.next_back(),
+                        10..=89 => outer.nth((what - 10) as usize),
+                        _ => outer.nth_back((what - 100) as usize),
+                    };
                     match item {
                         Some(v) => {
                             out.push(format!("Some({})", inners.len()));
@@ -299,8 +331,13 @@ where
                 break;
             };
             match what {
-                0 | 1 => {
-                    let item = if what == 0 { inner.next() } else { inner.next_back() };
+                0 | 1 | 10..=89 | 100..=179 => {
+                    let item = match what {
+                        0 => inner.next(),
+                        1 => inner.next_back(),
+                        10..=89 => inner.nth((what - 10) as usize),
+                        _ => inner.nth_back((what - 100) as usize),
+                    };
                     out.push(match item {
                         Some(x) => format!("Some({})", show(x)),
                         None => "None".to_string(),
@@ -577,6 +614,14 @@ fn exec<T: Elem>(pool: &mut Pool<T>, op: &WireOp, ctx: &Ctx) -> String {
             dest!(*d);
             let vecs: Vec<Vec<T>> = rows.iter().map(|r| atoms::<T>(r)).collect();
             let m: Matrix<T> = vecs.into_iter().collect();
+            pool[us(*d)] = Some(m);
+            ok
+        }
+        (13, [d, h]) => {
+            dest!(*d);
+            let h = *h;
+            let its: Vec<Hinted<T>> = rows.iter().map(|r| Hinted { inner: atoms::<T>(r).into_iter(), hint: h }).collect();
+            let m: Matrix<T> = its.into_iter().collect();
             pool[us(*d)] = Some(m);
             ok
         }
@@ -1184,7 +1229,7 @@ fn exec<T: Elem>(pool: &mut Pool<T>, op: &WireOp, ctx: &Ctx) -> String {
         (120, [s, f]) => {
             need!(pool, *s);
             let f = *f as i64;
-            let delay = ctx.delay;
+            let delay = ctx.delay & 15;
             let m = pool[us(*s)].as_mut().unwrap();
             par(ctx, || {
                 m.par_apply(|x| {
@@ -1200,7 +1245,7 @@ fn exec<T: Elem>(pool: &mut Pool<T>, op: &WireOp, ctx: &Ctx) -> String {
             dest!(*d);
             need!(pool, *s);
             let f = *f as i64;
-            let delay = ctx.delay;
+            let delay = ctx.delay & 15;
             let m = pool[us(*s)].take().unwrap();
             let r = par(ctx, move || {
                 m.par_map(|x| {
@@ -1215,7 +1260,7 @@ fn exec<T: Elem>(pool: &mut Pool<T>, op: &WireOp, ctx: &Ctx) -> String {
             dest!(*d);
             need!(pool, *s);
             let f = *f as i64;
-            let delay = ctx.delay;
+            let delay = ctx.delay & 15;
             let m = pool[us(*s)].as_ref().unwrap();
             let r = par(ctx, || {
                 m.par_map_ref(|x| {
@@ -1229,15 +1274,29 @@ fn exec<T: Elem>(pool: &mut Pool<T>, op: &WireOp, ctx: &Ctx) -> String {
         (123, [s]) => {
             need!(pool, *s);
             let m = pool[us(*s)].as_ref().unwrap();
-            let delay = ctx.delay;
-            let v: Vec<String> = par(ctx, || {
-                m.par_iter_elements()
+            let delay = ctx.delay & 15;
+            let v: Vec<String> = if split(ctx) {
+                let it = m.par_iter_elements();
+                par(ctx, move || {
+                    it
+
                     .map(|e| {
                         spin(delay, e as *const T as usize / std::mem::size_of::<T>().max(1));
                         e.show()
                     })
                     .collect()
-            });
+                })
+            } else {
+                par(ctx, || {
+                    m.par_iter_elements()
+
+                    .map(|e| {
+                        spin(delay, e as *const T as usize / std::mem::size_of::<T>().max(1));
+                        e.show()
+                    })
+                    .collect()
+                })
+            };
             format!("[{}]", v.join(","))
         }
         #[cfg(feature = "parallel")]
@@ -1245,8 +1304,11 @@ fn exec<T: Elem>(pool: &mut Pool<T>, op: &WireOp, ctx: &Ctx) -> String {
             need!(pool, *s);
             let f = *f as i64;
             let m = pool[us(*s)].as_mut().unwrap();
-            let v: Vec<String> = par(ctx, || {
-                m.par_iter_elements_mut()
+            let v: Vec<String> = if split(ctx) {
+                let it = m.par_iter_elements_mut();
+                par(ctx, move || {
+                    it
+
                     .map(|x| {
                         let shown = x.show();
                         let old = x.clone();
@@ -1254,29 +1316,61 @@ fn exec<T: Elem>(pool: &mut Pool<T>, op: &WireOp, ctx: &Ctx) -> String {
                         shown
                     })
                     .collect()
-            });
+                })
+            } else {
+                par(ctx, || {
+                    m.par_iter_elements_mut()
+
+                    .map(|x| {
+                        let shown = x.show();
+                        let old = x.clone();
+                        *x = T::un(10 + f, old);
+                        shown
+                    })
+                    .collect()
+                })
+            };
             format!("[{}]", v.join(","))
         }
         #[cfg(feature = "parallel")]
         (125, [s]) => {
             need!(pool, *s);
             let m = pool[us(*s)].take().unwrap();
-            let v: Vec<String> = par(ctx, move || m.into_par_iter_elements().map(|e| e.show()).collect());
+            let v: Vec<String> = if split(ctx) {
+                let it = m.into_par_iter_elements();
+                par(ctx, move || it.map(|e| e.show()).collect())
+            } else {
+                par(ctx, move || m.into_par_iter_elements().map(|e| e.show()).collect())
+            };
             format!("[{}]", v.join(","))
         }
         #[cfg(feature = "parallel")]
         (126, [s]) => {
             need!(pool, *s);
             let m = pool[us(*s)].as_ref().unwrap();
-            let delay = ctx.delay;
-            let v: Vec<String> = par(ctx, || {
-                m.par_iter_elements_with_index()
+            let delay = ctx.delay & 15;
+            let v: Vec<String> = if split(ctx) {
+                let it = m.par_iter_elements_with_index();
+                par(ctx, move || {
+                    it
+
                     .map(|(ix, e)| {
                         spin(delay, ix.row * 31 + ix.col);
                         idx_item::<T>(ix, e.show())
                     })
                     .collect()
-            });
+                })
+            } else {
+                par(ctx, || {
+                    m.par_iter_elements_with_index()
+
+                    .map(|(ix, e)| {
+                        spin(delay, ix.row * 31 + ix.col);
+                        idx_item::<T>(ix, e.show())
+                    })
+                    .collect()
+                })
+            };
             format!("[{}]", v.join(","))
         }
         #[cfg(feature = "parallel")]
@@ -1284,8 +1378,11 @@ fn exec<T: Elem>(pool: &mut Pool<T>, op: &WireOp, ctx: &Ctx) -> String {
             need!(pool, *s);
             let f = *f as i64;
             let m = pool[us(*s)].as_mut().unwrap();
-            let v: Vec<String> = par(ctx, || {
-                m.par_iter_elements_mut_with_index()
+            let v: Vec<String> = if split(ctx) {
+                let it = m.par_iter_elements_mut_with_index();
+                par(ctx, move || {
+                    it
+
                     .map(|(ix, x)| {
                         let shown = x.show();
                         let old = x.clone();
@@ -1293,15 +1390,32 @@ fn exec<T: Elem>(pool: &mut Pool<T>, op: &WireOp, ctx: &Ctx) -> String {
                         idx_item::<T>(ix, shown)
                     })
                     .collect()
-            });
+                })
+            } else {
+                par(ctx, || {
+                    m.par_iter_elements_mut_with_index()
+
+                    .map(|(ix, x)| {
+                        let shown = x.show();
+                        let old = x.clone();
+                        *x = T::un(10 + f, old);
+                        idx_item::<T>(ix, shown)
+                    })
+                    .collect()
+                })
+            };
             format!("[{}]", v.join(","))
         }
         #[cfg(feature = "parallel")]
         (128, [s]) => {
             need!(pool, *s);
             let m = pool[us(*s)].take().unwrap();
-            let v: Vec<String> =
-                par(ctx, move || m.into_par_iter_elements_with_index().map(|(ix, e)| idx_item::<T>(ix, e.show())).collect());
+            let v: Vec<String> = if split(ctx) {
+                let it = m.into_par_iter_elements_with_index();
+                par(ctx, move || it.map(|(ix, e)| idx_item::<T>(ix, e.show())).collect())
+            } else {
+                par(ctx, move || m.into_par_iter_elements_with_index().map(|(ix, e)| idx_item::<T>(ix, e.show())).collect())
+            };
             format!("[{}]", v.join(","))
         }
         // ----- rows / columns handed to several threads (C17) -----
@@ -1371,6 +1485,12 @@ fn exec<T: Elem>(pool: &mut Pool<T>, op: &WireOp, ctx: &Ctx) -> String {
         }
         _ => "INVALID".to_string(),
     }
+}
+
+/// delay bit 16: a parallel iterator is *built* under the ambient (global) pool and *driven* inside the case's pool
+#[cfg(feature = "parallel")]
+fn split(ctx: &Ctx) -> bool {
+    ctx.delay & 16 != 0
 }
 
 #[cfg(feature = "parallel")]
